@@ -1,5 +1,6 @@
 import HcipyVerif.Model.Proto
 import HcipyVerif.Model.FieldProg
+import HcipyVerif.Model.FourierSwitch
 
 /-!
 Line-protocol front end of the C19 model.
@@ -25,8 +26,16 @@ expr tok  := "v<x>" | "L:<shape>:<k>:<re>[:<im>]" | "S:<k>:<re>[:<im>]" | "F:<g>
            | "rk.<red>.<axis>" (keepdims) | "cs.<axis>" | "cp.<axis>" | sort | argsort | "amax.<axis>" | "amin.<axis>"
            | "as.<k>" | ftrace | fdot | mm1 | where | clip        (red also: prod any all; k also: i)
 ```
-Answer: `ok O <obs>* | N <obs>* | DO <obs>* | DN <obs>*` — the per-statement observations of the
-subclass route and of the wrapper route, then the final read-out of every variable under each.
+C19 select <cpu> <mkl:0|1> <fftw:0|1> <m1,m2,…|-> <threads|-> <big:0|1> <dtype> <failing m.t>*
+      `_make_func`: answer `ok sel=<m>.<t>|E:<err> calls=<m.t,…|-> warns=<n> prec=<p|-> workers=<n|-> std=<0|1>`
+C19 mft <pre:0|1> <alloc:0|1> <call>*      call := <f|b>.<64|128>; one MFT object, provenance kernels
+      answer `ok <state>/<result> …` per call, state = m<64|128|->i<64|128|->k<0|1> (k: `keyedB`), result = fresh | stale
+C19 nft <pre:0|1> <call>*                  answer `ok f<0|1>b<0|1>/<fresh|stale> …`
+```
+Answer of `run`: `ok O <obs>* | N <obs>* | DO <obs>* | DN <obs>* | A <0|1> <i|->` — the per-statement
+observations of the subclass route and of the wrapper route, then the final read-out of every variable under
+each, then `agree?` (the hypothesis of `backends_same_values`) and the index of the first statement in which
+a `.shaped` is applied to objects the two routes tag differently.
 `obs := <x>=<tag>:<shape>:<k>:<re>[:<im>] | <x>=E:<err>`, tag `f<g>` / `p` / `s`.
 -/
 namespace HcipyVerif.Driver.C19
@@ -220,6 +229,120 @@ def showDump (d : List (Nat × Except Err Val)) : String :=
     | .error e => s!"{x}=E:{showErr e}"
     | .ok v => s!"{x}={showVal v}")
 
+
+/-! ## Fourier half -/
+section Fourier
+open HcipyVerif.FourierSwitch
+
+def parseMethod (s : String) : Method :=
+  match s with
+  | "mkl" => .mkl | "fftw" => .fftw | "scipy" => .scipy | "numpy" => .numpy | _ => .other
+
+def showMethod : Method → String
+  | .mkl => "mkl" | .fftw => "fftw" | .scipy => "scipy" | .numpy => "numpy" | .other => "other"
+
+def parseDtIn? : String → Option DtIn
+  | "half" => some .half | "single" => some .single | "double" => some .double
+  | "longdouble" => some .longdouble | "integer" => some .integer | _ => none
+
+def showPrec : Prec → String
+  | .single => "single" | .double => "double" | .longdouble => "longdouble"
+
+def parseBit? : String → Option Bool
+  | "0" => some false | "1" => some true | _ => none
+
+/-- `m.t`: a known method name and a number of threads -/
+def parseFail? (s : String) : Option (Method × Nat) :=
+  match s.splitOn "." with
+  | [m, t] => if parseMethod m == .other then none else (parseNat? t).map fun t => (parseMethod m, t)
+  | _ => none
+
+def showCall (p : Method × Nat) : String := s!"{showMethod p.1}.{p.2}"
+
+def stepSelect : List String → Option String
+  | cpu :: mkl :: fftw :: ms :: th :: big :: dt :: fails => do
+    let cpu ← parseNat? cpu; let mkl ← parseBit? mkl; let fftw ← parseBit? fftw; let big ← parseBit? big
+    let dt ← parseDtIn? dt
+    let methods := if ms == "-" then [] else (ms.splitOn ",").map parseMethod
+    let threads ← if th == "-" then some none else (parseNat? th).map some
+    let fails ← fails.mapM parseFail?
+    let avail : Method → Bool := fun m => match m with | .mkl => mkl | .fftw => fftw | _ => true
+    let works : Method → Nat → Bool := fun m t => !fails.contains (m, t)
+    let calls := selectCalls cpu avail works methods threads big
+    let cs := if calls.isEmpty then "-" else ",".intercalate (calls.map showCall)
+    let w := warnCount cpu avail works methods threads big
+    match select cpu avail works methods threads big with
+    | .ok (m, t) =>
+      let wk := match workersArg m t with | some n => toString n | none => "-"
+      pure s!"ok sel={showCall (m, t)} calls={cs} warns={w} prec={showPrec (outPrec m dt)} workers={wk} std={if dt.standard then 1 else 0}"
+    | .error e =>
+      let es := match e with | .value => "value" | .unbound => "unbound"
+      pure s!"ok sel=E:{es} calls={cs} warns={w} prec=- workers=- std={if dt.standard then 1 else 0}"
+  | _ => none
+
+def parseCall? (i : Nat) (s : String) : Option (Dir × CPrec × (Nat × CPrec)) :=
+  match s.splitOn "." with
+  | [d, p] => do
+    let d ← match d with | "f" => some Dir.fwd | "b" => some Dir.bwd | _ => none
+    let p ← match p with | "64" => some CPrec.c64 | "128" => some CPrec.c128 | _ => none
+    pure (d, p, (i, p))
+  | _ => none
+
+def parseScript? (toks : List String) : Option (List (Dir × CPrec × (Nat × CPrec))) :=
+  (toks.zipIdx).mapM fun (s, i) => parseCall? i s
+
+def showCP : Option CPrec → String
+  | some .c64 => "64" | some .c128 => "128" | none => "-"
+
+/-- run the script on one object, reporting the cache keys after every call and whether the result
+is the one of a fresh switch-less object -/
+def mftStates (pre alloc : Bool) : MftCache CPrec BufProv → List (Dir × CPrec × (Nat × CPrec)) → List String
+  | _, [] => []
+  | c, (d, p, x) :: rest =>
+    let c' := (mftCall provKern pre alloc c d p x).2
+    let k := if keyedB provKern c' then "k1" else "k0"
+    s!"m{showCP (c'.mats.map (·.1))}i{showCP (c'.interm.map (·.1))}{k}" :: mftStates pre alloc c' rest
+
+/-- results through `mftRun` (the object of `mft_switch_independent`), states through `mftCall`/`keyedB` -/
+def mftTrace (pre alloc : Bool) (script : List (Dir × CPrec × (Nat × CPrec))) : List String :=
+  let rs := mftRun provKern pre alloc script
+  let fs := script.map fun s => mftFresh provKern s.1 s.2.1 s.2.2
+  let flags := List.zipWith (fun r f => if r == f then "fresh" else "stale") rs fs
+  List.zipWith (fun st fl => s!"{st}/{fl}") (mftStates pre alloc {} script) flags
+
+def nftProv : NftKern Nat Dir (Dir × Nat × Option CPrec) where
+  matrix d := d
+  apply a x := (a, x, none)
+  direct d x := (d, x, none)
+  castTo p r := (r.1, r.2.1, some p)
+
+def nftStates (pre : Bool) : NftCache Dir → List (Dir × CPrec × Nat) → List String
+  | _, [] => []
+  | c, (d, p, x) :: rest =>
+    let c' := (nftCall nftProv pre c d p x).2
+    s!"f{if c'.fwd.isSome then 1 else 0}b{if c'.bwd.isSome then 1 else 0}" :: nftStates pre c' rest
+
+/-- results through `nftRunFrom` with the switch as given and with the switch off (the two sides of
+`nft_switch_independent`) -/
+def nftTrace (pre : Bool) (script : List (Dir × CPrec × (Nat × CPrec))) : List String :=
+  let sc := script.map fun s => (s.1, s.2.1, s.2.2.1)
+  let rs := (nftRunFrom nftProv pre {} sc).1
+  let fs := (nftRunFrom nftProv false {} sc).1
+  let flags := List.zipWith (fun r f => if r == f then "fresh" else "stale") rs fs
+  List.zipWith (fun st fl => s!"{st}/{fl}") (nftStates pre {} sc) flags
+
+def stepFourier : List String → Option String
+  | "select" :: rest => stepSelect rest
+  | "mft" :: pre :: alloc :: calls => do
+    let pre ← parseBit? pre; let alloc ← parseBit? alloc; let sc ← parseScript? calls
+    pure ("ok " ++ " ".intercalate (mftTrace pre alloc sc))
+  | "nft" :: pre :: calls => do
+    let pre ← parseBit? pre; let sc ← parseScript? calls
+    pure ("ok " ++ " ".intercalate (nftTrace pre sc))
+  | _ => none
+
+end Fourier
+
 def step (st : St) : List String → St × String
   | ["reset"] => ({}, "ok")
   | ["grid", id, sh] =>
@@ -240,7 +363,12 @@ def step (st : St) : List String → St × String
       let sn := " ".intercalate (trn.map showObs)
       let dOld := match fo with | some s => showDump s.dump | none => "-"
       let dNew := match fn with | some s => showDump s.dump | none => "-"
-      (st, s!"ok O {so} | N {sn} | DO {dOld} | DN {dNew}")
-  | _ => (st, "bad-op")
+      let ag := if agree? st.grids prog then "1" else "0"
+      let at_ := match disagreeAt st.grids prog with | some i => toString i | none => "-"
+      (st, s!"ok O {so} | N {sn} | DO {dOld} | DN {dNew} | A {ag} {at_}")
+  | toks =>
+    match stepFourier toks with
+    | some r => (st, r)
+    | none => (st, "bad-op")
 
 end HcipyVerif.Driver.C19
